@@ -1558,7 +1558,25 @@ def r12_extension_declared_is_extension_documented(ctx):
     c07.r12_extension_mode_merge(Renamed(ctx, "C19.R12", "the extension an extractor declares (pagination, websocket) is the extension documented for the operation, wherever that extractor stands among the handler's arguments"))
 
 
-RULES = [("C19.R12", r12_extension_declared_is_extension_documented), ("C19.R11", r11_tag_policy_as_declared), ("C19.R10", r10_document_uses_the_version_filter_everywhere), ("C19.R9", r9_declared_body_limit_is_the_effective_limit), ("C19.R1", r1_one_producer), ("C19.R2a", r2a_validate), ("C19.R2b", r2b_emission), ("C19.R3", r3_builders),
+def r13_declared_content_type_is_documented_through_tuples(ctx):
+    """`the content type on the declaration is what the document shows`: a handler's extractor tuple hands the declared body content type to
+    every member's metadata(), so a TypedBody that follows a Query or Path is documented with the declared media type.  This is C07.R1,
+    re-evaluated here (adversary change C19-I: the tuple impls passed Default::default() -- JSON -- to their members)."""
+    from . import c07
+    from .lib_c01 import Renamed
+    c07.r1_type_parameter(Renamed(ctx, "C19.R13", "the declared body content type reaches the metadata of every member of the handler's extractor tuple, so the document shows it wherever the body stands among the arguments"))
+
+
+def r14_declared_range_is_routed_by_the_request_version(ctx):
+    """`the declared version range is what the server routes by`: the version the router selects a handler with is the request's version as
+    resolved, unmodified.  This is C01.R2, re-evaluated here (adversary change C19-J: lookup_route rebuilt the version from major.minor.patch
+    "to ignore build metadata", which also drops the pre-release tag, so 2.0.0-rc.1 was served by endpoints declared from 2.0.0)."""
+    from . import c01
+    from .lib_c01 import Renamed
+    c01.r2_one_endpoint(Renamed(ctx, "C19.R14", "the handler is selected by matching the declared ranges against the request's own version, not against a version rebuilt from parts of it"))
+
+
+RULES = [("C19.R14", r14_declared_range_is_routed_by_the_request_version), ("C19.R13", r13_declared_content_type_is_documented_through_tuples), ("C19.R12", r12_extension_declared_is_extension_documented), ("C19.R11", r11_tag_policy_as_declared), ("C19.R10", r10_document_uses_the_version_filter_everywhere), ("C19.R9", r9_declared_body_limit_is_the_effective_limit), ("C19.R1", r1_one_producer), ("C19.R2a", r2a_validate), ("C19.R2b", r2b_emission), ("C19.R3", r3_builders),
          ("C19.R4", r4_new_vs_stub), ("C19.R5", r5_tables), ("C19.R6", r6_document), ("C19.R7", r7_versions), ("C19.R8", r8_doc_lines)]
 
 _M = "dropshot_endpoint/src/metadata.rs"
